@@ -62,6 +62,11 @@ CHECKS = {
   text="Model checking with conformance: ArrayMem.tla specifies a Python list (1-D length 1..3, 2x2) with get/set/row actions incl. out-of-range; TLC enumerates every history of up to 2 (quick) / 3 (thorough) accesses with every index in -1..len, each is replayed with secret indices on the real Array, and after every access the outcome, returned value and the contents of all cells reported by the code must equal the spec's; additionally out-of-range indices are unsatisfiable in-circuit, read values/written cells are unique under an adversarial witness, and constraints are identical for all index values.",
   note="Bounded shapes/histories; cells mix secrets and constants; small prime fields.",
   design="5/C15"),
+ "C16": dict(
+  technique="TLC trace validation (TracePack.tla) against a TLA+ reference of bit decomposition and packers (Pack.tla) + Soundness.tla free-operand search for the enforced width",
+  text="Model checking by trace validation: to_bits(n)/from_bits for every width 1..b+2 and the default and every v in -2..2^n+1 at global bitlengths 2..4 (accepted iff 0<=v<2^n at the REQUESTED width, exact bits, round trip); packers over 17 schemas (bool, intmod 2..9, lists, repetitions, nesting, empty) x in-range and out-of-range leaf vectors x plain / secret-int / secret-bool inputs (bitlen, pack bits, unpack round trip, rejection of out-of-range plain values) judged by TLC with Pack.tla; the width actually enforced in-circuit by to_bits(n) / assert_positive(bits=n) is decided by adversarial search with free operands.",
+  note="Finite schema list and leaf windows; structured values compared as leaf sequences.",
+  design="5/C16"),
 }
 
 NOT_YET = "check not built yet in this round (planned, see DESIGN.md section 5)"
